@@ -125,8 +125,30 @@ func runWorker(bin string, args []string, env []string, onLine func(line []byte)
 	}
 	lastBegin = -1
 	rd := bufio.NewReaderSize(out, 1<<20)
+	// watchdog: a worker that reports nothing for 3 minutes is hung
+	progress := make(chan struct{}, 1)
+	stop := make(chan struct{})
+	hung := false
+	go func() {
+		for {
+			select {
+			case <-progress:
+			case <-stop:
+				return
+			case <-time.After(180 * time.Second):
+				hung = true
+				cmd.Process.Kill()
+				return
+			}
+		}
+	}()
+	defer close(stop)
 	for {
 		line, rerr := rd.ReadBytes('\n')
+		select {
+		case progress <- struct{}{}:
+		default:
+		}
 		if len(line) > 0 {
 			if line[0] == 'b' && len(line) > 2 && line[1] == ' ' {
 				if v, e := strconv.ParseInt(strings.TrimSpace(string(line[2:])), 10, 64); e == nil {
@@ -141,6 +163,9 @@ func runWorker(bin string, args []string, env []string, onLine func(line []byte)
 		}
 	}
 	err = cmd.Wait()
+	if hung {
+		err = fmt.Errorf("watchdog: no progress for 180s (hang), worker killed")
+	}
 	s := stderr.String()
 	if len(s) > 6000 {
 		s = s[len(s)-6000:]
